@@ -42,6 +42,8 @@ func backSlice(v ssa.Value, followArgs bool, visit func(ssa.Value)) {
 						for _, s := range storesTo(a) {
 							walk(s)
 						}
+						// composite literal built field by field
+						walk(a)
 					}
 					return
 				case *ssa.FieldAddr:
